@@ -57,55 +57,7 @@ def _error_clauses(body, ir, variant="Malformed"):
 # and with the side of the branch from which Ok(()) is no longer reachable) and put into a canonical orientation (the
 # operand that is a value of the file tables on the left).  Each line below names a clause by the shape of its operands
 # (struct fields of the format, constants) and gives the operator under which the file must be refused.
-FLIP = {"Lt": "Gt", "Le": "Ge", "Gt": "Lt", "Ge": "Le", "Eq": "Eq", "Ne": "Ne"}
-NEGATE = {"Lt": "Ge", "Le": "Gt", "Gt": "Le", "Ge": "Lt", "Eq": "Ne", "Ne": "Eq"}
-SYM = {"Lt": "<", "Le": "<=", "Gt": ">", "Ge": ">=", "Eq": "==", "Ne": "!="}
-
-
-def _is0(e):
-    return e[0] == "c" and e[1] == 0
-
-
-def _txt(e):
-    return show(strip_sites(e))
-
-
-def refusal_relations(body, ir):
-    """[(A, op, B, line)]: the file is refused when `A op B`"""
-    oks = [bi for bi in sorted(body.live) for st in body.blocks[bi]["st"]
-           if st["k"] == "assign" and st["p"]["l"] == 0 and not st["p"].get("pr") and st["r"]["k"] == "agg" and st["r"].get("variant") == "Ok"]
-    out = []
-    for bi in sorted(body.live):
-        t = body.blocks[bi]["term"]
-        if t["k"] != "switch":
-            continue
-        e, neg = strip_not(ir.term_operand(bi, t["o"]))
-        if e[0] != "bin" or e[1] not in NEGATE:
-            continue
-        # which raw value of the switch operand leads to a refusal (Ok(()) unreachable)?
-        raw_refuse = None
-        listed = set()
-        for v, tb in t["targets"]:
-            listed.add(bool(v))
-            if not any(o in body.reachable_from(tb) for o in oks):
-                raw_refuse = bool(v)
-        if raw_refuse is None and len(listed) == 1 and not any(o in body.reachable_from(t["otherwise"]) for o in oks):
-            raw_refuse = not next(iter(listed))
-        if raw_refuse is None:
-            continue
-        holds = raw_refuse if not neg else (not raw_refuse)
-        op = e[1] if holds else NEGATE[e[1]]
-        out.append((e[2], op, e[3], t.get("ln")))
-    return out
-
-
-def _orient(a, op, b, left_pred):
-    """put the operand satisfying left_pred on the left"""
-    if left_pred(a):
-        return a, op, b
-    if left_pred(b):
-        return b, FLIP[op], a
-    return None
+from .common import FLIP, NEGATE, SYM, _is0, _txt, refusal_relations, _orient, exact_clauses
 
 
 RANGE_CONST = "libtw2_datafile::format::ITEMTYPE_ID_RANGE"
@@ -138,38 +90,7 @@ def clauses(prog, rep):
     rule = "R2a-validation-clauses"
     b = prog.one(R + "check")
     ir = IR(b)
-    rels = refusal_relations(b, ir)
-    rep.floor(rule, len(rels), 15, "comparisons on which Reader::check refuses a file")
-    used = set()
-    for name, lp, rp, want, count in EXACT:
-        found = []
-        wrong = []
-        for idx, (a, op, b_, ln) in enumerate(rels):
-            o = _orient(a, op, b_, lp)
-            if o is None or not rp(o[2]):
-                continue
-            if o[1] == want:
-                found.append((idx, ln))
-            elif (idx, want) not in used:
-                wrong.append((idx, o[1], ln))
-        # a comparison of the right shape with the wrong operator counts as a wrong clause only if it is not claimed by
-        # another line of the table (size_items / type_id appear in several clauses)
-        claimed_elsewhere = set()
-        for name2, lp2, rp2, want2, c2 in EXACT:
-            if name2 == name:
-                continue
-            for idx, (a, op, b_, ln) in enumerate(rels):
-                o = _orient(a, op, b_, lp2)
-                if o is not None and rp2(o[2]) and o[1] == want2:
-                    claimed_elsewhere.add(idx)
-        wrong = [w for w in wrong if w[0] not in claimed_elsewhere]
-        ok = len(found) >= count
-        rep.ob(rule, "check | refuses when " + name, ok,
-               "clause present %d time(s) with the refusing relation `%s`" % (len(found), SYM[want]) if ok else
-               "check must refuse a file when %s; found %d such comparison(s) (need %d)%s" % (
-                   name, len(found), count,
-                   "; a comparison of that shape refuses on `%s` instead" % SYM[wrong[0][1]] if wrong else ""),
-               b.loc(found[0][1]) if found else (b.loc(wrong[0][2]) if wrong else b.loc()))
+    exact_clauses(rep, rule, "check", b, ir, EXACT, floor=15)
     # HeaderRest::check: non-negative counts and size_items divisible by 4
     h = prog.one("libtw2_datafile::format::HeaderRest::check")
     hir = IR(h)
